@@ -1,8 +1,26 @@
 #!/usr/bin/env python3
 """Markdown table of the seeded changes and what the checks reported (from seeded/*/meta.json, result.json)."""
-import glob, json, os
+import glob, json, os, subprocess
 ROOT = os.path.dirname(os.path.dirname(os.path.abspath(__file__)))
 rows = []
+
+
+def first_outcome(rp):
+    """Outcome of the FIRST completed run of this seed (exit 0 or 1), from the git history of result.json:
+    shows which seeds were only caught after a check was strengthened."""
+    try:
+        revs = subprocess.run(["git", "-C", ROOT, "log", "--format=%H", "--", rp], stdout=subprocess.PIPE).stdout.decode().split()
+    except Exception:
+        return None
+    for h in reversed(revs):
+        try:
+            r = json.loads(subprocess.run(["git", "-C", ROOT, "show", "%s:%s" % (h, os.path.relpath(rp, ROOT))], stdout=subprocess.PIPE).stdout.decode())
+        except Exception:
+            continue
+        ex = [c.get("exit") for c in r.get("checks", {}).values()]
+        if ex and all(e in (0, 1) for e in ex):
+            return "caught" if r.get("detected") else "missed"
+    return None
 for d in sorted(glob.glob(os.path.join(ROOT, "seeded", "C*"))):
     m = json.load(open(os.path.join(d, "meta.json")))
     rp = os.path.join(d, "result.json")
@@ -14,7 +32,7 @@ for d in sorted(glob.glob(os.path.join(ROOT, "seeded", "C*"))):
         verdicts.append("%s: %s" % (p, "VIOLATION" + (" (no-failing-input-found)" if v and "no-failing-input-found" in v[0] else "") if c.get("exit") == 1 and v else ("exit %s" % c.get("exit"))))
     conf = "ok" if r.get("existing_lib_tests_pass_with_patch") and r.get("demo_fails_with_patch") and r.get("demo_passes_pristine") else ("-" if not r else "incomplete")
     rows.append("| %s | %s | %s | %s | %s | %s |" % (os.path.basename(d), ", ".join(os.path.basename(f) for f in m.get("files_changed", []))[:60],
-                m.get("needs", "")[:160].replace("|", "/").replace("\n", " "), conf, "; ".join(verdicts) or "not run", "caught" if r.get("detected") else ("MISSED" if checks else "")))
+                m.get("needs", "")[:160].replace("|", "/").replace("\n", " "), conf, "; ".join(verdicts) or "not run", ("caught" + (" (missed by the first run; caught after the check was strengthened)" if first_outcome(rp) == "missed" else "")) if r.get("detected") else ("MISSED" if checks else "")))
 print("| seed | file(s) | needs to manifest | confirmed (tests pass, demo fails/passes) | check result | |")
 print("|---|---|---|---|---|---|")
 print("\n".join(rows))
